@@ -4,14 +4,45 @@
    1 xfa cp*       -> the same for the tree the parser model returns for the text | 1 pos (syntax error)
    2               -> the visitor key table and description indices of Valid/Rules.v
    3 tree          -> the context functions (spreads, usages, referenced fragments) per definition
-   4 tree          -> as 0 for erase_descriptions tree *)
-From GV Require Import Base.Prelude Lang.Lexer Lang.Ast Lang.Parser Valid.Rules Valid.RulesWire.
+   4 tree          -> as 0 for erase_descriptions tree
+   5 q m s n (len cp* nlocs loc* rep)^n tree
+                   -> as 0 for rules 23 24 25 26 of Valid/RulesDir.v (root types present, the schema's
+                      directives: name, location indices, repeatable) *)
+From GV Require Import Base.Prelude Lang.Lexer Lang.Ast Lang.Parser Valid.Rules Valid.RulesWire Valid.RulesDir.
 
 Definition with_tree (r : list N) (k : node -> list N) : list N :=
   match dec_node (S (length r)) r with
   | Some (d, []) => k d
   | _ => [8]
   end.
+
+Definition take (r : list N) : option (list N * list N) :=
+  match r with
+  | n :: r' => if (N.to_nat n <=? length r')%nat then Some (firstn (N.to_nat n) r', skipn (N.to_nat n) r') else None
+  | [] => None
+  end.
+
+Fixpoint dec_dirs (n : nat) (r : list N) : option (list dinfo * list N) :=
+  match n with
+  | O => Some ([], r)
+  | S n' =>
+    match take r with
+    | Some (nm, r1) =>
+      match take r1 with
+      | Some (locs, rep :: r2) =>
+        match dec_dirs n' r2 with
+        | Some (ds, r3) => Some (DI nm locs (negb (rep =? 0)) :: ds, r3)
+        | None => None
+        end
+      | _ => None
+      end
+    | None => None
+    end
+  end.
+
+Definition rules_dir (ds : dschema) (d : node) : option (list verr) :=
+  opt_concat [Some (rule_known_operation_types ds d); rule_known_directives ds d;
+              Some (rule_unique_directives_per_location ds d); Some (rule_defer_stream_label d)].
 
 Definition run (inp : list N) : list N :=
   match inp with
@@ -25,5 +56,11 @@ Definition run (inp : list N) : list N :=
   | [2] => enc_tables
   | 3 :: r => with_tree r (fun d => 0 :: enc_context d)
   | 4 :: r => with_tree r (fun d => enc_result (all_rules (erase_descriptions d)))
+  | 5 :: q :: m :: sb :: n :: r =>
+    match dec_dirs (N.to_nat n) r with
+    | Some (dl, r') =>
+      with_tree r' (fun d => enc_result (rules_dir (DS [negb (q =? 0); negb (m =? 0); negb (sb =? 0)] dl) d))
+    | None => [8]
+    end
   | _ => [999999]
   end.
